@@ -12,7 +12,7 @@ for m in selftest/mutants/*.diff; do
   bt=$(echo "$out" | grep -E "^BASELINE" | sed 's/BASELINE-TESTS //' | cut -c1-60)
   echo "| $b | $P | $res | ${bt:-not run} |"
 done
-declare -A FIXP=( [FX-02]=C03 [FX-03]="C13 C14" [FX-04]="C15" [FX-05]="C15" [FX-06a]="C19" [FX-06b]="C19 C15" [FX-07]="C14" [FX-08]="C17 C14" [FX-09]="C10" [FX-10]="C01" [FX-11]="C20" [FX-12]="C16" [FX-13]="C05 C14" )
+declare -A FIXP=( [FX-02]=C03 [FX-03]="C13 C14" [FX-04]="C15" [FX-05]="C15" [FX-06a]="C19" [FX-06b]="C19 C15" [FX-07]="C14" [FX-08]="C17 C14" [FX-09]="C10" [FX-10]="C01" [FX-11]="C20" [FX-12]="C16" [FX-13]="C05 C14" [FX-14]="C19" )
 for f in selftest/fixes/*.diff; do
   b=$(basename "$f" .diff); id=${b%%_*}
   for P in ${FIXP[$id]}; do
